@@ -46,7 +46,7 @@ PROPS = {
     },
     "C02": {
         "gen": [],
-        "thm_module": "NutsModel.Thm.C02Volume",
+        "thm_module": "NutsModel.Thm.C02VolumeExn",
         "namespace": "NutsModel.C02",
         "theorems": ["vsum_eq_sum", "dot_eq_sum", "diag_bijection", "leapfrog_reversible", "leapfrog_gy_consistent",
                      "leapfrog_reversible_iterate", "leapfrog_is_textbook_diag", "lowrank_apply_inverse", "lowrank_bijection",
@@ -54,7 +54,10 @@ PROPS = {
                      "leapfrog_shear_decomposition", "shearV_bijective", "shearQ_bijective", "logdet_diag",
                      "shearV_measurePreserving", "shearQ_measurePreserving", "leapfrog_volume_preserving", "leapfrogPair_eq_shears",
                      "leapfrogPair_spec", "leapfrog_step_volume_preserving", "leapfrog_step_volume_preimage", "leapfrogPair_bijective",
-                     "leapfrog_iterate_volume_preserving"],
+                     "leapfrog_iterate_volume_preserving",
+                     "rotPair_eq_posStep", "rotPair_add", "rotPair_bijective", "rotPair_eq_shears", "rotPair_measurePreserving",
+                     "exn_volume_preserving", "exnPair_eq", "exnPair_spec", "exn_step_volume_preserving", "exnPair_bijective",
+                     "exn_iterate_volume_preserving"],
         "harness": "C02",
         "level": "proof",
         "rule": ("one real TransformedHamiltonian::leapfrog step (and the step back) per case: Diag and LowRank transformations with "
@@ -68,7 +71,7 @@ PROPS = {
                  "a matching Gaussian over 50 steps. distinct_nontrivial = low-rank cases with rank >= 1 and n >= 2."),
         "trusted": [
             "C02: proved over R for every dimension, step size of either sign and ARBITRARY gradient field: leapfrog(-eps) o leapfrog(eps) = id for Euclidean and ExactNormal (and along whole orbits); for the diagonal transformation the whitened step IS the textbook leapfrog for H = -logp + 1/2 p^T M^-1 p with M^-1 = diag(sigma^2); Diag and LowRank maps are bijections (orthonormal U, lambda > 0) whose gradient map is the adjoint of the linear part; logdet = -sum log sigma; ExactNormal conserves 1/2|v|^2+1/2|y|^2 on the standard normal; the Euclidean step conserves the shadow energy of a harmonic oscillator exactly (hence energy error O(eps^2) there); the step is a composition of three shears, each bijective with explicit inverse",
-            "C02: volume preservation IS proved, measure-theoretically (Thm/C02Volume: each shear, the Euclidean leapfrog step and its iterates preserve Lebesgue measure for any measurable whitened-gradient field; no smoothness needed); the ExactNormal flow's volume preservation (a rotation composed with shears) is not separately stated; NOT proved: energy error O(eps^2) for arbitrary smooth densities (needs Taylor estimates) -- supported numerically only; the textbook identity for the LOW-RANK transformation is checked by the dense-matrix oracle on real steps, its Lean statement covers the diagonal case; Sylvester's determinant identity for the low-rank logdet is checked numerically (ln|det F| by LU)",
+            "C02: volume preservation IS proved, measure-theoretically (Thm/C02Volume: each shear, the Euclidean leapfrog step and its iterates preserve Lebesgue measure for any measurable whitened-gradient field; no smoothness needed); the ExactNormal step (kick, exact rotation for every angle, kick) likewise (Thm/C02VolumeExn); the microcanonical (ESH) dynamics are not volume preserving in the Euclidean sense and are covered by C18's identities instead; NOT proved: energy error O(eps^2) for arbitrary smooth densities (needs Taylor estimates) -- supported numerically only; the textbook identity for the LOW-RANK transformation is checked by the dense-matrix oracle on real steps, its Lean statement covers the diagonal case; Sylvester's determinant identity for the low-rank logdet is checked numerically (ln|det F| by LU)",
         ],
     },
     "C03": {
@@ -427,9 +430,12 @@ PROPS = {
     },
     "C04": {
         "gen": [],
-        "thm_module": "NutsModel.Thm.C04",
+        "thm_module": "NutsModel.Thm.C04Invariant",
         "namespace": "NutsModel.C04",
-        "theorems": ["shift_orbit", "phase_space_detailed_balance", "mixture_reversible", "momentum_is_fresh", "arrayGaussian_scales"],
+        "theorems": ["shift_orbit", "phase_space_detailed_balance", "mixture_reversible", "momentum_is_fresh", "arrayGaussian_scales",
+                     "draw_shift_outcomes", "K_support", "K_total", "K_nonneg", "Kz_support", "Kz_total", "Kz_nonneg", "draw_bernOk",
+                     "Kfull_nonneg", "Kfull_row_sum", "Kfull_detailed_balance", "nuts_leaves_target_invariant",
+                     "nuts_jitter_leaves_target_invariant", "jitter_row_sum"],
         "harness": "C04",
         "level": "other",
         "rule": ("STATISTICAL SUPPORT, not proof: real chains (public API, default settings apart from num_draws) for Diag / LowRank NUTS x Euclidean / "
@@ -443,7 +449,7 @@ PROPS = {
                  "autocorrelation and correlation with the previous whitened position. A statistic is reported only if |z| > 6 AND a confirmation run "
                  "with fresh seeds and 4x the draws again gives |z| > 6 with the same sign. distinct_nontrivial = configurations whose chains all completed."),
         "trusted": [
-            "C04: what is PROVED (Thm/C04 on top of C01Refine, C02, Sched): for every bijective integrator the frozen NUTS kernel satisfies detailed balance w.r.t. exp(-H) in phase space (phase_space_detailed_balance), also under a state-independent random step size (mixture_reversible); the velocity of a trajectory is the fresh standard-normal vector of that trajectory (momentum_is_fresh, model of initialize_trajectory/array_gaussian(ones)); after num_tune the kernel is frozen (C06). The lift from orbit-level balance to invariance of pi x N(0,I) under Lebesgue measure is standard measure theory and is NOT formalised",
+            "C04: what is PROVED (Thm/C04 on top of C01Refine, C02, Sched): for every bijective integrator the frozen NUTS kernel satisfies detailed balance w.r.t. exp(-H) in phase space (phase_space_detailed_balance), also under a state-independent random step size (mixture_reversible); the velocity of a trajectory is the fresh standard-normal vector of that trajectory (momentum_is_fresh, model of initialize_trajectory/array_gaussian(ones)); after num_tune the kernel is frozen (C06). On every FINITE phase space (which a floating-point phase space is) invariance of exp(-H) under the NUTS transition, also with jitter, IS proved from the executable model (Thm/C04Invariant: total mass, support, stochastic phase-space kernel, detailed balance, stationarity); the continuous statement (invariance of pi x N(0,I) under Lebesgue measure) would combine this with Thm/C02Volume[Exn] and Fubini and is NOT formalised",
             "C04: 'means, variances and quantiles match within Monte-Carlo error' is a statement about mixing of actual runs; no model theorem decides it -- this part of the property is measured (z-scores with a confirmation stage), which is why the level claimed is 'other', not 'proof'",
             "C04: the momentum reconstruction assumes a diagonal frozen transformation (Diag presets); the low-rank presets share the same initialize_trajectory code path",
         ],
